@@ -2,6 +2,7 @@ use std::any::type_name;
 use std::borrow::Borrow;
 use std::fmt;
 use std::ops::Deref;
+use std::panic::{AssertUnwindSafe, catch_unwind, resume_unwind};
 use std::pin::Pin;
 use std::ptr::NonNull;
 use std::sync::Arc;
@@ -206,8 +207,15 @@ impl Drop for Remover {
         // SAFETY: The remover controls the shared object lifetime and is the only thing
         // that can remove the item from the pool. We keep the pool alive for as long as any
         // handle or remover referencing it exists, so the pool must still exist.
-        unsafe {
+        let result = catch_unwind(AssertUnwindSafe(|| unsafe {
             pool.remove(self.handle);
+        }));
+
+        // Release the guard cleanly (never poisoning it) before re-throwing a destructor panic.
+        drop(core);
+
+        if let Err(payload) = result {
+            resume_unwind(payload);
         }
     }
 }
